@@ -21,7 +21,8 @@ META = {
     "note": "Trusted: Coq kernel, extraction, OCaml driver, C++ MPI harness, PMPI shim, OpenMPI; MPI point-to-point semantics (a posted "
             "Irecv(source q) completes with the message q Issent to us; Issend completes once matched) are modelled, not verified. "
             "RemoteIndices itself is property C04: the model starts from C04's conclusion (c05_remote_of) and the harness compares the "
-            "tree's remote index lists with it in the deep stream.  DatatypeCommunicator is not modelled.",
+            "tree's remote index lists with it in the deep stream.  DatatypeCommunicator: datatypes as (entry, length) blocks, transfers as "
+            "gather/scatter through typemaps (C05_datatype_delivery, _equals_buffered_copy); MPI's own datatype engine is trusted.",
     "design_ref": "DESIGN.md section 4 C05",
 }
 
@@ -155,7 +156,7 @@ def corpus_cases():
 
 # --------------------------------------------------------------------------- observations
 
-FIELD = re.compile(r"(RI|IF|SE|SD|EQ|ST|P\d)\[([^\]]*)\]")
+FIELD = re.compile(r"(RI|IF|SE|SD|EQ|ST|DT|P\d)\[([^\]]*)\]")
 
 
 def parse_obs(line):
@@ -210,6 +211,21 @@ def cmp_data(spec, got, cl):
     return None
 
 
+def dt_overlap_of(case, so):
+    """one container per rank and some entry is both sent from and received into (hypothesis c05_dt_nonoverlap violated)"""
+    if case["two"] or (case["pol"] // 8) % 2:
+        return False
+    for s in so:
+        snd, rcv = set(), set()
+        for tok in s.get("IF", "").split(" "):
+            if ":" in tok:
+                x, y = tok.split(":")[1].split("/")
+                snd |= set(x.split(",")) - {""}; rcv |= set(y.split(",")) - {""}
+        if snd & rcv:
+            return True
+    return False
+
+
 def oracle(case, impl_line, spec_line):
     """The property applied to what the impl did.  Returns the list of (what, reason) rejections (empty = accepted).
     Observations of members outside the communication path (default Selection, Interface ==, self tests) do not stop the
@@ -227,16 +243,7 @@ def oracle(case, impl_line, spec_line):
     # DatatypeCommunicator sends from and receives into user memory directly: if, with ONE container, an entry is both a
     # source and a target, the posted send and receive buffers overlap (erroneous in MPI, result order dependent): such
     # cases are outside what the unbuffered variant can promise and are not judged for phases 3/4.
-    dt_overlap = False
-    if not case["two"] and not (case["pol"] // 8) % 2:
-        for s in so:
-            snd, rcv = set(), set()
-            for tok in s.get("IF", "").split(" "):
-                if ":" in tok:
-                    x, y = tok.split(":")[1].split("/")
-                    snd |= set(x.split(",")) - {""}; rcv |= set(y.split(",")) - {""}
-            if snd & rcv:
-                dt_overlap = True
+    dt_overlap = dt_overlap_of(case, so)
     for p, (a, s) in enumerate(zip(io, so)):
         if "IF" not in a:
             return side + [("exception", "rank %d: %s" % (p, impl_line[:160]))]
@@ -281,7 +288,7 @@ def oracle(case, impl_line, spec_line):
     return side
 
 
-def diff_model(impl_line, model_line, spec_line):
+def diff_model(impl_line, model_line, spec_line, case=None):
     """impl vs model: ('public'|'deep', detail) or None.  Positions the spec leaves open (*) are not compared."""
     io, mo, so = parse_obs(impl_line), parse_obs(model_line), parse_obs(spec_line)
     if io is None or mo is None or len(io) != len(mo):
@@ -293,6 +300,20 @@ def diff_model(impl_line, model_line, spec_line):
                 continue                                  # already rejected by the oracle
             if a.get(k) != m.get(k):
                 return ("public", "rank %d %s: impl [%s] model [%s]" % (p, k, a.get(k), m.get(k)))
+        if "P3" in m and case is not None and not dt_overlap_of(case, so):      # DatatypeCommunicator: model vs impl
+            for ph in ("P3", "P4"):
+                x, y = a.get(ph, {}), m.get(ph, {})
+                for fld in ("D", "T"):
+                    xb, yb, sb = blocks(x.get(fld, "")), blocks(y.get(fld, "")), blocks(s.get(ph, {}).get(fld, ""))
+                    if len(xb) != len(yb):
+                        return ("public", "rank %d %s (DatatypeCommunicator) container %s" % (p, ph, fld))
+                    for l in range(len(xb)):
+                        for j in range(max(len(xb[l]), len(yb[l]))):
+                            open_ = l < len(sb) and j < len(sb[l]) and sb[l][j] == "*"
+                            if not open_ and (j >= len(xb[l]) or j >= len(yb[l]) or xb[l][j] != yb[l][j]):
+                                return ("public", "rank %d %s (DatatypeCommunicator) container %s entry %d.%d: impl %s model %s" % (p, ph, fld, l, j, xb[l][j:j+1], yb[l][j:j+1]))
+        if "DT" in m and a.get("DT") != m.get("DT"):
+            deep = deep or "rank %d MPI datatypes (entry.length per remote process, send/receive): impl [%s] model [%s]" % (p, a.get("DT"), m.get("DT"))
         if a.get("RI") != m.get("RI"):
             deep = deep or "rank %d remote index lists: impl [%s] model [%s]" % (p, a.get("RI"), m.get("RI"))
         for ph in ("P0", "P1", "P2"):
@@ -556,7 +577,7 @@ def run(ctx):
         ia, im = parse_obs(a), parse_obs(mm)
         if any(x[ph]["S"] != y[ph]["S"] for x, y in zip(ia, im) for ph in ("P0", "P1", "P2")):
             nperm += 1                       # same scatter calls, but not in ascending process order: Waitany was perturbed
-        dm = diff_model(a, mm, spec)
+        dm = diff_model(a, mm, spec, c)
         if dm and dm[0] == "public":
             ndis += 1
             if ndis <= 10:
@@ -583,8 +604,8 @@ def run(ctx):
         "pmpi_shim": {"perturbed_sweeps": shim[0], "calls_reporting_out_of_index_order": shim[1], "delays": shim[2],
                       "cases_with_receives_completed_out_of_process_order": nperm},
         "traces_validated_against_impl": sum(1 for a in io if a and a.startswith("r0 ")),
-        "not_modelled": ["DatatypeCommunicator (MPI derived datatypes): exercised on ~35% of the cases (forward, backward) and judged by the spec oracle only",
-                         "RemoteIndices::rebuild itself (C04; compared in the deep stream)"],
+        "not_modelled": ["RemoteIndices::rebuild itself (C04; compared in the deep stream)",
+                         "MPI's interpretation of hindexed datatypes (the typemap semantics of c05_dt_pack/c05_dt_unpack is the modelled assumption)"],
         "build_over_build_cases_generated": rebuild_ok, "sanitizer_cases": nsan,
         "exhaustive": False,
     })
